@@ -165,7 +165,7 @@ def load_known(pid):
 # --------------------------------------------------------------------------
 # TLC
 
-_cov_re = re.compile(r"^<(\w+) line (\d+), col \d+ to line \d+, col \d+ of module (\w+)>: (\d+):(\d+)")
+_cov_re = re.compile(r"^<(\w+) line (\d+), col \d+ to line \d+, col \d+ of module (\w+)(?: \([\d ]+\))?>: (\d+):(\d+)")
 
 
 def tlc(run, module, cfg, mode="bfs", workers=None, dump=None, sim=None, env=None, timeout=1100,
